@@ -50,6 +50,8 @@ pub struct ClientSim {
     /// Client-side pre-spawned entities (C16): name -> client entity.
     pub prespawned: BTreeMap<String, Entity>,
     pub panicked: bool,
+    /// last projection of this client's state (returned again once the app has panicked)
+    pub last_proj: std::cell::RefCell<Value>,
     /// client emissions queued by the driver: (type, id, slot)
     pub pending_emits: Vec<(String, u32, Option<String>)>,
     /// pre-spawned entities already used in a mapping (one mapping each)
@@ -80,6 +82,7 @@ pub struct Sim {
     pub next_msg_id: u64,
     /// messages of the code under test that the harness's decoder rejected (data, reported by the validator)
     pub wire_errors: Vec<String>,
+    pub last_srv_proj: std::cell::RefCell<Value>,
     pub server_panicked: bool,
     /// whether `send_replication` ran in the most recent server frame (cfg-guarded counter in /repo)
     pub last_ran: bool,
@@ -192,6 +195,7 @@ impl Sim {
                 sess: 0,
                 prespawned: BTreeMap::new(),
                 panicked: false,
+                last_proj: std::cell::RefCell::new(Value::Null),
                 pending_emits: Vec::new(),
                 used_pre: Default::default(),
                 last_notif: Vec::new(),
@@ -213,6 +217,7 @@ impl Sim {
             last_run: 0,
             next_msg_id: 1,
             wire_errors: Vec::new(),
+            last_srv_proj: std::cell::RefCell::new(Value::Null),
             server_panicked: false,
             last_ran: false,
             last_sent: Vec::new(),
@@ -414,7 +419,7 @@ impl Sim {
         let cl = &mut self.clients[ci];
         cl.entity = Some(ce);
         cl.sess += 1;
-        cl.app.world_mut().resource_mut::<RepliconClient>().set_status(RepliconClientStatus::Connected);
+        cl.app.world_mut().get_resource_mut::<RepliconClient>().map(|mut c| c.set_status(RepliconClientStatus::Connected));
     }
 
     /// Both ends drop the connection; everything in flight is lost with the transport.
@@ -426,7 +431,7 @@ impl Sim {
             }
         }
         let cl = &mut self.clients[ci];
-        cl.app.world_mut().resource_mut::<RepliconClient>().set_status(RepliconClientStatus::Disconnected);
+        cl.app.world_mut().get_resource_mut::<RepliconClient>().map(|mut c| c.set_status(RepliconClientStatus::Disconnected));
         for q in cl.s2c.iter_mut().chain(cl.c2s.iter_mut()) {
             q.clear();
         }
@@ -449,12 +454,12 @@ impl Sim {
     pub fn lose_to_connecting(&mut self, c: &str) {
         self.disconnect(c);
         let ci = self.ci(c);
-        self.clients[ci].app.world_mut().resource_mut::<RepliconClient>().set_status(RepliconClientStatus::Connecting);
+        self.clients[ci].app.world_mut().get_resource_mut::<RepliconClient>().map(|mut c| c.set_status(RepliconClientStatus::Connecting));
     }
 
     pub fn give_up(&mut self, c: &str) -> bool {
         let ci = self.ci(c);
-        let mut client = self.clients[ci].app.world_mut().resource_mut::<RepliconClient>();
+        let Some(mut client) = self.clients[ci].app.world_mut().get_resource_mut::<RepliconClient>() else { return false };
         if !client.is_connecting() {
             return false;
         }
@@ -477,7 +482,7 @@ impl Sim {
     pub fn stop(&mut self) {
         self.server.world_mut().resource_mut::<RepliconServer>().set_running(false);
         for cl in &mut self.clients {
-            cl.app.world_mut().resource_mut::<RepliconClient>().set_status(RepliconClientStatus::Disconnected);
+            cl.app.world_mut().get_resource_mut::<RepliconClient>().map(|mut c| c.set_status(RepliconClientStatus::Disconnected));
             for q in cl.s2c.iter_mut().chain(cl.c2s.iter_mut()) {
                 q.clear();
             }
@@ -626,6 +631,9 @@ impl Sim {
         self.last_sent.clear();
         self.last_panic = None;
         self.last_delivered.clear();
+        if self.server_panicked {
+            return;
+        }
         self.flush_server_emits();
         set_dt(&mut self.server, dt_ms);
         let running = self.server.world().resource::<RepliconServer>().is_running();
@@ -648,6 +656,9 @@ impl Sim {
             for q in &mut cl.srx {
                 q.clear();
             }
+        }
+        if self.server_panicked {
+            return;
         }
         // a stopped server despawns its client entities in `reset`
         for cl in &mut self.clients {
@@ -685,6 +696,13 @@ impl Sim {
         self.last_sent.clear();
         self.last_panic = None;
         self.last_delivered.clear();
+        if self.clients[ci].panicked {
+            // a panicked app is not touched again (its world may have lost resources in the unwinding)
+            for q in &mut self.clients[ci].rx {
+                q.clear();
+            }
+            return;
+        }
         self.flush_client_emits(ci);
         let sent: Vec<(usize, Bytes)> = {
             let cl = &mut self.clients[ci];
@@ -696,6 +714,9 @@ impl Sim {
             }
             for q in &mut cl.rx {
                 q.clear();
+            }
+            if cl.panicked {
+                return;
             }
             cl.app.world_mut().resource_mut::<RepliconClient>().drain_sent().collect()
         };
@@ -902,6 +923,9 @@ impl Sim {
         let ci = self.ci(c);
         let cl = &mut self.clients[ci];
         let Some(m) = cl.s2c[ch].remove(pos) else { return false };
+        if cl.panicked {
+            return true;
+        }
         cl.app.world_mut().resource_mut::<RepliconClient>().insert_received(ch, m.bytes.clone());
         cl.rx[ch].push(m);
         true
@@ -922,6 +946,9 @@ impl Sim {
         let cl = &mut self.clients[ci];
         let Some(ce) = cl.entity else { return false };
         let Some(m) = cl.c2s[ch].remove(pos) else { return false };
+        if self.server_panicked {
+            return true;
+        }
         self.server.world_mut().resource_mut::<RepliconServer>().insert_received(ce, ch, m.bytes.clone());
         cl.srx[ch].push(m);
         true
@@ -942,6 +969,15 @@ impl Sim {
     }
 
     pub fn project_server(&self) -> Value {
+        if self.server_panicked {
+            return self.last_srv_proj.borrow().clone();
+        }
+        let v = self.project_server_live();
+        *self.last_srv_proj.borrow_mut() = v.clone();
+        v
+    }
+
+    fn project_server_live(&self) -> Value {
         let w = self.server.world();
         let mut world = serde_json::Map::new();
         for (name, slot) in &self.slots {
@@ -1080,6 +1116,17 @@ impl Sim {
     }
 
     pub fn project_client(&self, ci: usize) -> Value {
+        if self.clients[ci].panicked {
+            let mut v = self.clients[ci].last_proj.borrow().clone();
+            v["panicked"] = json!(true);
+            return v;
+        }
+        let v = self.project_client_live(ci);
+        *self.clients[ci].last_proj.borrow_mut() = v.clone();
+        v
+    }
+
+    fn project_client_live(&self, ci: usize) -> Value {
         let c = &self.clients[ci];
         let w = c.app.world();
         let status = match w.resource::<RepliconClient>().status() {
